@@ -63,6 +63,13 @@ impl std::ops::Add<std::time::Duration> for VInstant {
     }
 }
 
+impl std::ops::Sub<VInstant> for VInstant {
+    type Output = std::time::Duration;
+    fn sub(self, o: VInstant) -> std::time::Duration {
+        std::time::Duration::from_nanos(self.0.saturating_sub(o.0) as u64)
+    }
+}
+
 /// `std::thread` look-alike for the timer thread: with a virtual clock installed a
 /// timed park becomes a short poll, so that only the controller moves time.
 pub mod vthread {
